@@ -1,3 +1,364 @@
 import FiberModel.DriverUtil
--- stub driver for C18; replaced when the property's model lands
-def main : IO Unit := pure ()
+import FiberModel.C11.Spec
+import FiberModel.C18.Spec
+/-
+Driver for C18. Case shapes (after the id):
+  asm   base url method cH rH cQ rQ cC rC cP rP jarC cUA rUA cRef rRef cTO rTO bodyKind body form files delay  implObs
+  jar   ops                                                                                                       implObs
+  sched acts                                                                                                      implObs
+  stress workers perWorker delayMs timeoutMs                                                                      implObs
+Entry lists are `p1:p2[:p3]` items (hex parts, `_` = empty) joined by ',' (`-` = none).
+-/
+open B DriverUtil C18
+
+def unPart (s : String) : Option Bytes := if s == "_" || s == "-" then some [] else fromHexAux s.toList
+
+def entries (s : String) (arity : Nat) : Option (List (List Bytes)) :=
+  if s == "-" then some []
+  else (s.splitOn ",").mapM fun it =>
+    let ps := it.splitOn ":"
+    if ps.length != arity then none else ps.mapM unPart
+
+def opsOf (es : List (List Bytes)) : Option (List Op) :=
+  es.mapM fun e => match e with
+    | [o, k, v] => if o = b "a" then some (.add k v) else if o = b "s" then some (.set k v) else none
+    | _ => none
+
+def kvOf (es : List (List Bytes)) : Option (List KV) :=
+  es.mapM fun e => match e with
+    | [k, v] => some (k, v)
+    | _ => none
+
+/-- a `set` that hits a key holding two or more values is store-implementation territory -/
+def opsUnambiguous (ops : List Op) : Bool :=
+  (ops.foldl (fun (acc : List KV × Bool) o => match o with
+    | .add k v => (storeAdd acc.1 k v, acc.2)
+    | .set k v => (storeSet (storeDel acc.1 k) k v, acc.2 && decide ((valuesOf acc.1 k).length ≤ 1))) ([], true)).2
+
+def tokenOK (s : Bytes) : Bool := !s.isEmpty && s.all fun c => isAlpha c || isDigit c || c == 45 || c == 95
+
+def hexKV (kv : KV) : String := toHexField kv.1 ++ ":" ++ toHexField kv.2
+
+def joinOr (xs : List String) : String := if xs.isEmpty then "-" else ",".intercalate xs
+
+def strLe (a c : String) : Bool := !bytesLt (c.toList.map Char.toNat) (a.toList.map Char.toNat)
+
+def sortStrings (l : List String) : List String := l.mergeSort strLe
+
+def sortBytesList (l : List Bytes) : List Bytes := l.mergeSort fun a c => !bytesLt c a
+
+/-- multipart form fields as the harness lists them: names sorted, values in order -/
+def groupByName (fs : List KV) : List KV :=
+  (sortBytesList ((fs.map (·.1)).eraseDups)).flatMap fun k => (valuesOf fs k).map fun v => (k, v)
+
+def renderAsm (a : Assembled) : String :=
+  let q := (parseArgsNV a.rawQuery).map fun x => hexKV (x.key, x.value)
+  let h := (a.headers.filter fun kv => decide (kv.1.length > 2) && kv.1.take 2 == b "X-").map hexKV
+  let ck := sortStrings (a.cookies.map hexKV)
+  let (body, ff, files) : String × String × String := match a.body with
+    | .none => ("-", "-", "-")
+    | .raw bs => (toHexField bs, "-", "-")
+    | .form fs => (toHexField (C11.renderArgs fs), "-", "-")
+    | .files fs fl =>
+      let named := fileFieldNames fl
+      let names := sortBytesList ((named.map (·.1)).eraseDups)
+      let fl' := names.flatMap fun n => named.filter (·.1 = n)
+      ("mp", joinOr ((groupByName fs).map hexKV),
+       joinOr (fl'.map fun f => toHexField f.1 ++ ":" ++ toHexField f.2.1 ++ ":" ++ toHexField f.2.2))
+  s!"m={toHexField a.method};host={toHexField a.host};path={toHexField a.path};rq={toHexField a.rawQuery};" ++
+  s!"q={joinOr q};h={joinOr h};ua={toHexField a.userAgent};ref={toHexField a.referer};ck={joinOr ck};" ++
+  s!"ct={toHexField a.contentType};body={body};ff={ff};files={files}"
+
+def kvPairs (s : String) : Option (List KV) :=
+  if s == "-" then some [] else (s.splitOn ",").mapM fun it => match it.splitOn ":" with
+    | [k, v] => do some ((← unPart k), (← unPart v))
+    | _ => none
+
+def triples (s : String) : Option (List (Bytes × Bytes × Bytes)) :=
+  if s == "-" then some [] else (s.splitOn ",").mapM fun it => match it.splitOn ":" with
+    | [a, c, d] => do some ((← unPart a), (← unPart c), (← unPart d))
+    | _ => none
+
+def parseAsmObs (s : String) : Option AsmObs := do
+  let kv := (s.splitOn ";").filterMap fun p => match p.splitOn "=" with
+    | [k, v] => some (k, v)
+    | _ => none
+  let get (k : String) : Option String := (kv.find? (·.1 == k)).map (·.2)
+  let body ← get "body"
+  let bo : BodyObs ← (if body == "mp" then do
+      some (BodyObs.multipart (← (← get "ff") |> kvPairs) (← (← get "files") |> triples))
+    else if body == "mperr" then some BodyObs.broken
+    else (fromHex body).map BodyObs.bytes)
+  some { method := ← (← get "m") |> fromHex, host := ← (← get "host") |> fromHex, path := ← (← get "path") |> fromHex,
+         query := ← (← get "q") |> kvPairs, headers := ← (← get "h") |> kvPairs,
+         userAgent := ← (← get "ua") |> fromHex, referer := ← (← get "ref") |> fromHex,
+         cookies := ← (← get "ck") |> kvPairs, contentType := ← (← get "ct") |> fromHex, body := bo }
+
+def methodsOK : List Bytes := [b "GET", b "POST", b "PUT", b "DELETE", b "PATCH", b "OPTIONS", b "HEAD"]
+
+def urlBytesOK (u : Bytes) : Bool := u.all fun c => 32 < c && c < 127
+
+def handleAsm (id : String) (f : List String) (impl : String) : Except String Verdict := do
+  match f with
+  | [base, url, method, cH, rH, cQ, rQ, cC, rC, cP, rP, jarC, cUA, rUA, cRef, rRef, cTO, rTO, bodyKind, body, form, files, delay] =>
+    let bad (what : String) : Except String Verdict := throw s!"outside-domain: {what}"
+    let some base := fromHex base | bad "base"
+    let some url := fromHex url | bad "url"
+    let some method := fromHex method | bad "method"
+    let some cH := (entries cH 3).bind opsOf | bad "cH"
+    let some rH := (entries rH 3).bind opsOf | bad "rH"
+    let some cQ := (entries cQ 3).bind opsOf | bad "cQ"
+    let some rQ := (entries rQ 3).bind opsOf | bad "rQ"
+    let some cC := (entries cC 2).bind kvOf | bad "cC"
+    let some rC := (entries rC 2).bind kvOf | bad "rC"
+    let some cP := (entries cP 2).bind kvOf | bad "cP"
+    let some rP := (entries rP 2).bind kvOf | bad "rP"
+    let some jarC := (entries jarC 2).bind kvOf | bad "jarC"
+    let some cUA := fromHex cUA | bad "cUA"
+    let some rUA := fromHex rUA | bad "rUA"
+    let some cRef := fromHex cRef | bad "cRef"
+    let some rRef := fromHex rRef | bad "rRef"
+    let some cTO := cTO.toNat? | bad "cTO"
+    let some rTO := rTO.toNat? | bad "rTO"
+    let some delay := delay.toNat? | bad "delay"
+    let some bodyB := fromHex body | bad "body"
+    let some formOps := (entries form 3).bind opsOf | bad "form"
+    let some fileL := (entries files 3) | bad "files"
+    let fileT : List (Bytes × Bytes × Bytes) := fileL.filterMap fun e => match e with
+      | [a, c, d] => some (a, c, d) | _ => none
+    -- domain guards
+    if !methodsOK.contains method then bad "method" else
+    if !(base.isEmpty || (hasProtocol base && urlBytesOK base && !base.contains 63 && !base.contains 35)) then bad "base url" else
+    if !urlBytesOK url then bad "url bytes" else
+    if !([cH, rH, cQ, rQ, formOps].all opsUnambiguous) then bad "set on a multi-valued key" else
+    if !((cH ++ rH).all fun o => match o with
+          | .add k v | .set k v => tokenOK k && decide (k.length > 2) && k.take 2 == b "X-" &&
+              C11.headerValueOK v && (match C11.utf8Decode k with | some _ => true | none => false)) then bad "header name/value" else
+    if !((cC ++ rC ++ jarC).all fun kv => tokenOK kv.1 && C11.cookieValueOK kv.2) then bad "cookie name/value" else
+    if !([cUA, rUA, cRef, rRef].all C11.headerValueOK) then bad "user agent / referer value" else
+    if !((cP ++ rP).all fun kv => !kv.1.isEmpty && kv.1.all nameByte) then bad "path parameter name" else
+    if !(fileT.all fun t => (t.1.isEmpty || tokenOK t.1) && !t.2.1.isEmpty && t.2.1.all (fun c => tokenOK [c] || c == 46 || c == 32)) then bad "file names" else
+    if !(["none", "raw", "form", "files"].contains bodyKind) then bad "body kind" else
+    let eff := if rTO > 0 then rTO else cTO
+    if delay > 0 && eff > 0 && !(eff * 4 ≤ delay || delay * 4 ≤ eff) then bad "timeout too close to the delay" else
+    let cfg : Config := {
+      baseURL := base, url := url, method := method,
+      client := { headers := applyOps cH, params := applyOps cQ, cookies := mapOf cC, pathParams := mapOf cP,
+                  userAgent := cUA, referer := cRef, timeout := cTO },
+      request := { headers := applyReqHeaderOps rH, params := applyOps rQ, cookies := mapOf rC, pathParams := mapOf rP,
+                   userAgent := rUA, referer := rRef, timeout := rTO },
+      jar := mapOf jarC,
+      body := match bodyKind with
+        | "raw" => .raw bodyB
+        | "form" => .form (applyOps formOps)
+        | "files" => .files (applyOps formOps) fileT
+        | _ => .none }
+    let sp := split2 url 63
+    let uri0 := if hasProtocol sp.1 then sp.1 else base ++ sp.1
+    let urlArgs := (parseArgsNV (split2 sp.2 35).1).map fun a => (a.key, a.value)
+    let keys := cfg.request.pathParams.map (·.1) ++ cfg.client.pathParams.map (·.1)
+    let tOK := templateOK uri0 keys
+    let k2 := unsafePathValue uri0 cfg.request.pathParams cfg.client.pathParams
+    let willTimeout := delay > 0 && eff > 0 && eff < delay
+    let detOf (s : String) : Option (String × Bool) :=
+      if s.endsWith ";det=1" then some ((s.dropEnd 6).toString, true)
+      else if s.endsWith ";det=0" then some ((s.dropEnd 6).toString, false) else none
+    let some (implCore, det) := detOf impl | throw "unparsable-observation"
+    -- model
+    let modelCore : String := match assemble cfg with
+      | none => "err=" ++ toHexField (b "the URL is incorrect")
+      | some a => if willTimeout then "timeout" else renderAsm a
+    -- fasthttp normalises the path ("//", "/./", "/../"): such paths are outside the modelled domain
+    let needsNorm := match assemble cfg with
+      | some a => (indexOf a.path (b "//")).isSome || (indexOf a.path (b "/.")).isSome || a.host.isEmpty ||
+                  a.host.any (fun c => !(isAlpha c || isDigit c || c == 46 || c == 45 || c == 58))
+      | none => false
+    if needsNorm && !k2 then throw "outside-domain: URL that the server normalises" else
+    let outside := (assemble cfg).isSome && !willTimeout && (k2 || !tOK)
+    let modelObs := if outside then impl else modelCore ++ ";det=1"
+    -- spec
+    let spec : Option String :=
+      if !det then some "deterministic-function-of-configuration"
+      else match assemble cfg with
+        | none => if implCore.startsWith "err=" then none else some "invalid-url-is-an-error"
+        | some _ =>
+          if implCore == "timeout" then
+            (if delay > 0 && eff > 0 && eff < delay then none else some "timeout(request-over-client)")
+          else if willTimeout then some "timeout(request-over-client)"
+          else match parseAsmObs implCore with
+            | none => some "request-arrives"
+            | some o =>
+              match specAsm cfg uri0 urlArgs o with
+              | some cl => if cl.startsWith "path-parameter" && !tOK && !k2 then none else some cl
+              | none => none
+    let known := if k2 && (match spec with | some cl => cl.startsWith "path-parameter" | none => false) then some "K2" else none
+    let levels := (if !cfg.client.pathParams.isEmpty && !cfg.request.pathParams.isEmpty then ["both-path-levels"] else []) ++
+                  (if !cfg.client.headers.isEmpty && !cfg.request.headers.isEmpty then ["both-header-levels"] else []) ++
+                  (if !cfg.client.cookies.isEmpty && !cfg.request.cookies.isEmpty then ["both-cookie-levels"] else [])
+    pure { id := id, modelObs := modelObs, implObs := impl, spec := spec, known := known,
+           tags := ["asm"] ++ (if outside then ["outside-model"] else []) ++ (if k2 then ["k2-region"] else []) ++
+                   (if !tOK then ["ambiguous-template"] else []) ++ (if delay > 0 then ["asm-timeout"] else []) ++ levels ++
+                   (if !outside && (assemble cfg).isSome then ["nt-asm"] else []) }
+  | _ => throw s!"outside-domain: asm field count {f.length}"
+
+/-! ### jar -/
+
+def nowT : Nat := 1000000
+
+def expOf (s : String) : Option (Option Nat) :=
+  match s with
+  | "n" => some none | "p" => some (some (nowT - 3600)) | "f" => some (some (nowT + 3600)) | _ => none
+
+def plainOK (s : Bytes) : Bool := s.all fun c => isAlpha c || isDigit c
+def hostOK (s : Bytes) : Bool := !s.isEmpty && s.all fun c => isAlpha c || isDigit c || c == 46 || c == 58 || c == 45
+def pathOK (s : Bytes) : Bool := s.all fun c => isAlpha c || isDigit c || c == 47
+
+def parseSetCookie (s : String) : Option Cookie :=
+  match s.splitOn "~" with
+  | [n, v, p, e] => do
+    let n ← unPart n; let v ← unPart v; let p ← unPart p; let e ← expOf e
+    if n.isEmpty || !plainOK n || !plainOK v || !pathOK p then none
+    some { name := n, value := v, path := p, expiry := e }
+  | _ => none
+
+def parseJarOp (s : String) : Option JarOp :=
+  match s.splitOn ":" with
+  | ["S", h, n, v, p, e] => do
+    let h ← unPart h; let n ← unPart n; let v ← unPart v; let p ← unPart p; let e ← expOf e
+    if !hostOK h || n.isEmpty || !plainOK n || !plainOK v || !pathOK p then none
+    some (.set h { name := n, value := v, path := p, expiry := e })
+  | ["K", h, n, v] => do
+    let h ← unPart h; let n ← unPart n; let v ← unPart v
+    if !hostOK h || n.isEmpty || !plainOK n || !plainOK v then none
+    some (.setKV h n v)
+  | ["R", h, p, cs] => do
+    let h ← unPart h; let p ← unPart p
+    if !hostOK h || !pathOK p || p.head? != some 47 then none
+    let scs ← if cs == "-" then some [] else (cs.splitOn "+").mapM parseSetCookie
+    some (.resp h p scs)
+  | ["G", h, p] => do
+    let h ← unPart h; let p ← unPart p
+    if !hostOK h || !pathOK p || p.head? != some 47 then none
+    some (.get h p)
+  | ["X", h, p] => do
+    let h ← unPart h; let p ← unPart p
+    if !hostOK h || !pathOK p || p.head? != some 47 then none
+    some (.getRelease h p)
+  | ["L"] => some .releaseJar
+  | _ => none
+
+def hxs (s : Bytes) : String := if s.isEmpty then "_" else toHex s
+
+def renderCookies (cs : List Cookie) : String :=
+  if cs.isEmpty then "-" else "+".intercalate (cs.map fun c => hxs c.name ++ "~" ++ hxs c.value ++ "~" ++ hxs c.path)
+
+def renderJarObs : JarOp → JarObs → String
+  | .set .., _ => "s"
+  | .setKV .., _ => "k"
+  | .releaseJar, _ => "l"
+  | _, .cookies cs => "g=" ++ renderCookies cs
+  | _, .header h => "r=" ++ hxs h
+  | _, .done => "?"
+
+def parseCookieList (s : String) : Option (List Cookie) :=
+  if s == "-" then some [] else (s.splitOn "+").mapM fun it => match it.splitOn "~" with
+    | [n, v, p] => do some { name := ← unPart n, value := ← unPart v, path := ← unPart p, expiry := none }
+    | _ => none
+
+/-- observations carry no expiry: compare on (name, value, path) -/
+def stripExp (o : JarObs) : JarObs :=
+  match o with
+  | .cookies cs => .cookies (cs.map fun c => { c with expiry := none })
+  | o => o
+
+def parseJarObs (op : JarOp) (s : String) : Option JarObs :=
+  match op with
+  | .set .. => if s == "s" then some .done else none
+  | .setKV .. => if s == "k" then some .done else none
+  | .releaseJar => if s == "l" then some .done else none
+  | .resp .. => if s.startsWith "r=" then (unPart ((s.drop 2).toString)).map .header else none
+  | _ => if s.startsWith "g=" then (parseCookieList ((s.drop 2).toString)).map .cookies else none
+
+def specJarStripped (now : Nat) : AbsJar → List JarOp → List JarObs → Option (String × Bool)
+  | _, [], [] => none
+  | j, op :: ops, o :: os =>
+    if o = stripExp (specObs now j op) then specJarStripped now (absStep now j op) ops os
+    else
+      some ((match op with
+        | .resp .. => "jar-sends-exactly-the-matching-cookies"
+        | _ => "jar-returns-exactly-the-matching-cookies"), o = stripExp (implObsOf now j op))
+  | _, _, _ => some ("observation-count", false)
+
+def handleJar (id opsS impl : String) : Except String Verdict := do
+  let some ops := (if opsS == "-" then some [] else (opsS.splitOn ";").mapM parseJarOp) | throw "outside-domain: jar ops"
+  let modelObs := runJar lifo nowT ops JarState.init
+  let modelS := if ops.isEmpty then "-" else "|".intercalate ((ops.zip modelObs).map fun (op, o) => renderJarObs op o)
+  let implParts := if impl == "-" then [] else impl.splitOn "|"
+  let implObs : Option (List JarObs) :=
+    if implParts.length != ops.length then none else (ops.zip implParts).mapM fun (op, s) => parseJarObs op s
+  let (spec, k1) : Option String × Bool := match implObs with
+    | none => (some "unparsable-observation", false)
+    | some os => match specJarStripped nowT [] ops os with
+      | none => (none, false)
+      | some (cl, k) => (some cl, k)
+  let nontriv := modelObs.any fun o => match o with
+    | .cookies (_ :: _) => true
+    | .header (_ :: _) => true
+    | _ => false
+  pure { id := id, modelObs := modelS, implObs := impl, spec := spec, known := if k1 then some "K1" else none,
+         tags := ["jar"] ++ (if nontriv then ["nt-jar"] else []) ++ (if k1 then ["k1-region"] else []) }
+
+/-! ### schedules -/
+
+def firstFree (owner : Nat → Option Nat) (n : Nat) : Nat :=
+  ((List.range (n + 1)).find? fun r => (owner r).isNone).getD n
+
+/-- the schedule the harness drives for one action (repaired code), as model actions -/
+def schedFor (g : G) (i : Nat) (act : String) : List Action :=
+  let r := firstFree g.rOwner (i + 1)
+  let c := firstFree g.cOwner (i + 1)
+  match act with
+  | "ok" => [.start i r c, .worker i, .worker i, .worker i, .worker i, .recv i, .close i]
+  | "cb" => [.start i r c, .timeout i, .main i, .main i, .worker i, .worker i]
+  | _ => [.start i r c, .worker i, .worker i, .timeout i, .main i, .main i, .worker i, .worker i, .main i, .main i]
+
+def handleSched (id actsS impl : String) : Except String Verdict := do
+  let acts := if actsS == "-" then [] else actsS.splitOn ";"
+  if !(acts.all fun a => a == "ok" || a == "cb" || a == "ca") || acts.length > 12 then throw "outside-domain: schedule"
+  let g := (List.range acts.length).zip acts |>.foldl (fun g (i, a) => run true g (schedFor g i a)) G.init
+  let modelParts := (List.range acts.length).map fun i => match (g.reqs i).result with
+    | some (some j) => s!"Rq{j}"
+    | some none => "T"
+    | none => "?"
+  let modelS := if acts.isEmpty then "-" else "|".intercalate modelParts
+  let implParts := if impl == "-" then [] else impl.splitOn "|"
+  let spec : Option String :=
+    if implParts.length != acts.length then some "unparsable-observation"
+    else if g.bad then some "model-bad"
+    else specSched (((List.range acts.length).zip acts).zip implParts |>.map fun ((i, a), s) =>
+      (a, (s!"q{i}").toList.map Char.toNat,
+       if s == "T" then ExecObs.timeout
+       else if s.startsWith "R" then ExecObs.response ((s.drop 1).toString.toList.map Char.toNat)
+       else ExecObs.error))
+  pure { id := id, modelObs := modelS, implObs := impl, spec := spec,
+         tags := ["sched"] ++ (if acts.any (· == "ca") then ["nt-sched-cancel-after-completion"] else []) ++
+                 (if acts.any (· == "cb") then ["nt-sched-cancel-before-completion"] else []) }
+
+def handleStress (id : String) (ps : List String) (impl : String) : Except String Verdict := do
+  let some ns := ps.mapM String.toNat? | throw "outside-domain: stress parameters"
+  if ns.length != 4 then throw "outside-domain: stress parameters"
+  let spec := if impl == "bad=0" then none else if impl.startsWith "bad=" then some "response-belongs-to-request" else some "unparsable-observation"
+  pure { id := id, modelObs := "bad=0", implObs := impl, spec := spec, tags := ["stress", "nt-stress"] }
+
+def handleCase (f : List String) : Except String Verdict := do
+  match f with
+  | id :: "asm" :: rest =>
+    match rest.reverse with
+    | impl :: r => handleAsm id r.reverse impl
+    | [] => throw "outside-domain: fields"
+  | [id, "jar", ops, impl] => handleJar id ops impl
+  | [id, "sched", acts, impl] => handleSched id acts impl
+  | [id, "stress", a, c, d, e, impl] => handleStress id [a, c, d, e] impl
+  | _ => throw s!"outside-domain: unknown case shape ({f.length} fields)"
+
+def main : IO Unit := run handleCase
